@@ -132,36 +132,29 @@ def build_kmodel(force=False):
     ext = os.path.join(BUILD, "extract")
     subprocess.run(["rm", "-rf", ext])
     os.makedirs(ext)
+    # All Extract/*.v files are merged into ONE extraction run (separate runs would overwrite each other's shared modules):
+    # the union of their `From KV Require Import ...` modules and of their `Separate Extraction ...` items.
     exdir = os.path.join(COQ, "theories", "Extract")
-    # Every Extract/*.v is compiled on its own first (so a broken one is named), then ONE combined `Separate Extraction`
-    # of the union is run: separate runs into one directory would overwrite the shared modules (Datatypes, List0, BinNums...)
-    # with the subset the last file needs.
-    evs = sorted(f for f in os.listdir(exdir) if f.endswith(".v"))
-    imports, names, blacklist = [], [], []
-    for ev in evs:
+    mods, items = [], []
+    for ev in sorted(f for f in os.listdir(exdir) if f.endswith(".v")):
         text = strip_coq_comments(open(os.path.join(exdir, ev)).read())
-        for m in re.finditer(r"From\s+\w+\s+Require\s+Import\s+.*?\.(?=\s)", text, re.S):
-            imports.append(m.group(0))
-        for m in re.finditer(r"Extraction\s+Blacklist\s+([^.]*)\.", text):
-            blacklist += m.group(1).split()
-        ms = re.findall(r"Separate\s+Extraction\s+(.*?)\.(?=\s|$)", text, re.S)
-        if len(ms) != 1:
-            return False, "extraction failed (%s): expected exactly one Separate Extraction command" % ev
-        names += ms[0].split()
-    seen = set()
-    names = [n for n in names if not (n in seen or seen.add(n))]
-    combined = os.path.join(ext, "ExtractAll.v")
-    with open(combined, "w") as f:
-        f.write("\n".join(dict.fromkeys(imports)) + "\nExtraction Blacklist %s.\nSeparate Extraction\n  %s.\n" % (
-            " ".join(dict.fromkeys(blacklist)), "\n  ".join(names)))
-    rc, out = run_cmd(["coqc", "-Q", os.path.join(COQ, "theories"), "KV", combined], cwd=ext, timeout=900)
+        for req in re.finditer(r"From\s+KV\s+Require\s+(?:Import\s+|Export\s+)?(.*?)\.(?=\s)", text, re.S):
+            for name in req.group(1).split():
+                if name not in mods:
+                    mods.append(name)
+        for se in re.finditer(r"Separate\s+Extraction\s+(.*?)\.(?=\s|$)", text, re.S):
+            for it in se.group(1).split():
+                if it not in items:
+                    items.append(it)
+    allv = os.path.join(ext, "ExtractAll.v")
+    with open(allv, "w") as f:
+        f.write("From Coq Require Import Extraction ExtrOcamlBasic ExtrOcamlNativeString.\n")
+        f.write("From KV Require Import %s.\n" % " ".join(mods))
+        f.write("Extraction Blacklist String List Bool.\n")
+        f.write("Separate Extraction\n  %s.\n" % "\n  ".join(items))
+    rc, out = run_cmd(["coqc", "-Q", os.path.join(COQ, "theories"), "KV", allv], cwd=ext, timeout=1800)
     if rc:
-        return False, "extraction failed (union of %s):\n%s" % (evs, out)
-    for junk in ("ExtractAll.v", "ExtractAll.vo", "ExtractAll.glob", "ExtractAll.vok", "ExtractAll.vos", ".ExtractAll.aux"):
-        try:
-            os.remove(os.path.join(ext, junk))
-        except OSError:
-            pass
+        return False, "extraction failed:\n%s" % out
     odir = os.path.join(VERIF, "ocaml")
     cmds = sorted(f for f in os.listdir(odir) if f.startswith("cmds_") and f.endswith(".ml"))
     for f in ["kcore.ml", "kmain.ml"] + cmds:
